@@ -7,8 +7,9 @@ namespace TV
 namespace Kernel
 
 theorem live_empty (k : Kernel) (hk : k.tbl = {}) (hf : k.fixReap = true) : Live k [] := by
-  refine ⟨by rw [hk]; exact tinv_empty, ?_, ?_, ?_, hf⟩
+  refine ⟨by rw [hk]; exact tinv_empty, ?_, ?_, ?_, ?_, hf⟩
   · intro c hc; rw [hk] at hc; simp at hc
+  · intro l hl; rw [hk] at hl; simp at hl
   · intro s hs; rw [hk] at hs; simp at hs
   · intro s hs; rw [hk] at hs; simp at hs
 
@@ -50,7 +51,8 @@ theorem live_tlisten (k : Kernel) (o : List Fd) (ip : Ip) (port : Nat) (k' : Ker
     (hk : k.bind ip port true = .ok (k', fd)) (h : Live k o) : Live (k'.listen fd) (fd :: o) := by
   obtain ⟨h', hnew⟩ := live_bind k o ip port true k' fd hk h
   refine live_modify k' fd (fun s => { s with listen := some [] }) (fd :: o) (fd :: o) (fun _ => rfl) (fun _ => rfl)
-    (fun _ => rfl) (fun _ _ _ _ => rfl) ?_ (fun _ _ _ hx => hx) ?_ h'
+    (fun _ => rfl) (fun _ _ _ _ => rfl) ?_ (fun _ _ _ hx => hx) (fun _ hs => hs)
+    (fun _ _ _ rd' hrd y hy => by simp only [Option.some.injEq] at hrd; rw [← hrd] at hy; simp at hy) ?_ h'
   · intro s hs hfd rd hl
     rw [(hnew s hs hfd).1] at hl
     exact absurd hl (by simp)
